@@ -72,34 +72,34 @@ def run_optimizer(name, p0, data, model, lower, upper, fixed, multinom):
     common = dict(lower_bound=list(lower), upper_bound=list(upper), fixed_params=list(fixed) if fixed is not None else None, multinom=multinom)
     pts = [20]
     if name == 'opt_bobyqa':
-        x, v = Inference.opt(list(p0), data, model, pts, algorithm=nlopt.LN_BOBYQA, maxeval=400, **common)
+        x, v = Inference.opt(p0, data, model, pts, algorithm=nlopt.LN_BOBYQA, maxeval=400, **common)
         return x, v
     if name == 'opt_cobyla':
-        x, v = Inference.opt(list(p0), data, model, pts, algorithm=nlopt.LN_COBYLA, maxeval=400, **common)
+        x, v = Inference.opt(p0, data, model, pts, algorithm=nlopt.LN_COBYLA, maxeval=400, **common)
         return x, v
     if name == 'opt_log':
-        x, v = Inference.opt(list(p0), data, model, pts, algorithm=nlopt.LN_BOBYQA, maxeval=400, log_opt=True, **common)
+        x, v = Inference.opt(p0, data, model, pts, algorithm=nlopt.LN_BOBYQA, maxeval=400, log_opt=True, **common)
         return x, v
     if name == 'optimize':
-        out = Inference.optimize(list(p0), data, model, pts, maxiter=15, full_output=True, **common)
+        out = Inference.optimize(p0, data, model, pts, maxiter=15, full_output=True, **common)
         return out[0], -out[1]
     if name == 'optimize_log':
-        out = Inference.optimize_log(list(p0), data, model, pts, maxiter=15, full_output=True, **common)
+        out = Inference.optimize_log(p0, data, model, pts, maxiter=15, full_output=True, **common)
         return out[0], -out[1]
     if name == 'optimize_lbfgsb':
-        out = Inference.optimize_lbfgsb(list(p0), data, model, pts, maxiter=200, full_output=True, **common)
+        out = Inference.optimize_lbfgsb(p0, data, model, pts, maxiter=200, full_output=True, **common)
         return out[0], -out[1]
     if name == 'optimize_log_lbfgsb':
-        out = Inference.optimize_log_lbfgsb(list(p0), data, model, pts, maxiter=200, full_output=True, **common)
+        out = Inference.optimize_log_lbfgsb(p0, data, model, pts, maxiter=200, full_output=True, **common)
         return out[0], -out[1]
     if name == 'optimize_log_fmin':
-        out = Inference.optimize_log_fmin(list(p0), data, model, pts, maxiter=60, full_output=True, **common)
+        out = Inference.optimize_log_fmin(p0, data, model, pts, maxiter=60, full_output=True, **common)
         return out[0], -out[1]
     if name == 'optimize_log_powell':
-        out = Inference.optimize_log_powell(list(p0), data, model, pts, maxiter=3, full_output=True, **common)
+        out = Inference.optimize_log_powell(p0, data, model, pts, maxiter=3, full_output=True, **common)
         return out[0], -out[1]
     if name == 'optimize_cons':
-        out = Inference.optimize_cons(list(p0), data, model, pts, full_output=True, **common)
+        out = Inference.optimize_cons(p0, data, model, pts, full_output=True, **common)
         return out[0], -out[1]
     raise KeyError(name)
 
@@ -144,11 +144,19 @@ def case_opt(col, p):
             fv_fac = 1.0 + 0.03 * (sum(start_code) % 3)
             fixedvals = [(float(np.sqrt(lo * up)) * 1.1 * fv_fac if lo > 0 else 0.4 * lo * fv_fac) if f else None for f, lo, up in zip(fixed_mask, lower, upper)]
             fixed = fixedvals if any(fixed_mask) else None
+            if p.get('on_bound'):
+                # values exactly ON a bound are inside the box: the first free parameter starts on its lower bound, fixed ones sit on theirs
+                free0 = [i for i, f in enumerate(fixed_mask) if not f][0]
+                p0[free0] = lower[free0]
+                fixedvals = [float(lo) if f else None for f, lo in zip(fixed_mask, lower)]
+                fixed = fixedvals if any(fixed_mask) else None
             record.clear()
             lower_l, upper_l = list(lower), list(upper)
             info = dict(p, fixed=fixedvals, start=p0, fixed_only=list(fixed_mask), start_stride=None)
+            # the start vector is handed over as a float array (what perturb_params or a previous optimisation returns) or as a list
+            p0_arg = p0.copy() if sum(start_code) % 2 == 0 else [float(v) for v in p0]
             try:
-                xopt, reported = run_optimizer(name, p0, data, model, lower_l, upper_l, fixed, multinom)
+                xopt, reported = run_optimizer(name, p0_arg, data, model, lower_l, upper_l, fixed, multinom)
             except Exception as e:
                 col.tick(transitions=len(record) + 1)
                 col.violation('C12:%s:raises' % name, info, '%s: %s' % (type(e).__name__, str(e)[:200]))
@@ -163,6 +171,8 @@ def case_opt(col, p):
             # caller's lists untouched
             if lower_l != list(lower) or upper_l != list(upper):
                 col.violation('C12:%s:bound_lists_modified' % name, info, '')
+            if not np.array_equal(np.asarray(p0_arg, dtype=float), p0):
+                col.violation('C12:%s:start_vector_modified' % name, dict(info, passed_as=type(p0_arg).__name__), {'before': p0, 'after': np.asarray(p0_arg, dtype=float)})
             if not record:
                 col.violation('C12:%s:model_never_evaluated' % name, info, '')
                 continue
@@ -210,7 +220,7 @@ def case_opt(col, p):
                 if best_seen > ll_start + 1e-3 and ll_ret < best_seen - 1e-6 * max(1.0, abs(best_seen)) and len(record) >= 5:
                     col.violation('C12:%s:returns_point_worse_than_evaluated' % name, info, {'best_evaluated(first 50)': best_seen, 'll_returned': ll_ret, 'xopt': xopt, 'start': start_full})
     col.tick(states=n, traces=n)
-    col.distinct('nontrivial', ('opt', name, kind, k, multinom, box, tuple(p.get('fixed_only') or ())))
+    col.distinct('nontrivial', ('opt', name, kind, k, multinom, box, tuple(p.get('fixed_only') or ()), bool(p.get('on_bound'))))
 
 
 def case_grid(col, p):
@@ -391,6 +401,12 @@ def run(ctx):
                                 continue
                             cases.append({'kind': 'opt', 'opt': name, 'model': kind, 'k': k, 'multinom': multinom, 'box': box,
                                           'fixed_only': list(fixed_mask), 'start_stride': stride})
+    # a free parameter starting exactly on its lower bound, fixed parameters sitting exactly on theirs
+    for name in LOCAL:
+        for multinom in (True, False):
+            for fixed_mask in ((0, 0), (0, 1), (1, 0)):
+                cases.append({'kind': 'opt', 'opt': name, 'model': 'nonlinear', 'k': 2, 'multinom': multinom, 'box': 'inside',
+                              'fixed_only': list(fixed_mask), 'start_stride': 4, 'on_bound': True})
     if ctx.quick:
         ctx.cap_hit('quick: models with k<=3 parameters, for k=3 every third starting-point combination; thorough: k<=4 (k=4 every third), k<=3 complete')
     for k in (1, 2, 3):
